@@ -438,15 +438,23 @@ def judge(sp, cfg, res, want=None):
     # ---- C17: each printed row vs. the value its body received -----------------------------------
     if it.action in ("test", "bench"):
         rows = []
+        bench_of = {b.bid: b for b in sp.benches}
         for e, p in mapping:
             if e.kind == "bench":
                 rows.append((p.line_no, e, p))
         rows.sort(key=lambda x: x[0])
+        if len(rows) != len(log["runs"]):
+            # the printed tree could not be matched node by node against the expected one (a label differs, say): the rows that
+            # ran are then the printed leaves that are not marked as ignored, in printing order
+            leaves = [n for n in printed_cases(proots, it.action) if not n.ignored]
+            if len(leaves) == len(log["runs"]):
+                by_p = {id(p): e for e, p in mapping if e.kind == "bench"}
+                rows = [(n.line_no, by_p.get(id(n)), n) for n in leaves]
         if len(rows) == len(log["runs"]):
             for (_, e, p), r in zip(rows, log["runs"]):
                 obs["labels_checked"] += 1
                 path = p.path()
-                if path[-1].startswith("t=") and e.name.startswith("t="):
+                if path[-1].startswith("t=") and (e.name.startswith("t=") if e is not None else (r["arg"] != path[-1] or r["arg"] is None)):
                     path = path[:-1]
                 label = path[-1]
                 if r["arg"] is not None:
@@ -455,14 +463,14 @@ def judge(sp, cfg, res, want=None):
                     # an argument row of a generic instantiation sits under the const / type it was instantiated with
                     up = path[:-1]
                     if r["const"] is not None and up:
-                        kind = e.model.bench.constkind
+                        kind = bench_of[r["bid"]].constkind
                         if up[-1] != TG.const_render(kind, r["const"]):
                             add("C17", "const_label_mismatch", "row '%s' sits under const '%s' but ran with const '%s'" % ("::".join(path), up[-1], r["const"]))
                         up = up[:-1]
                     if r["ty"] is not None and up and up[-1] != TG.type_display(r["ty"]):
                         add("C17", "type_label_mismatch", "row '%s' sits under type '%s' but ran with type '%s'" % ("::".join(path), up[-1], r["ty"]))
                 elif r["const"] is not None:
-                    kind = e.model.bench.constkind
+                    kind = bench_of[r["bid"]].constkind
                     if label != TG.const_render(kind, r["const"]):
                         add("C17", "const_label_mismatch", "row labelled '%s' (%s) ran with const '%s'" % (label, "::".join(path), r["const"]))
                     if r["ty"] is not None and len(path) >= 2 and path[-2] != TG.type_display(r["ty"]):
@@ -470,7 +478,7 @@ def judge(sp, cfg, res, want=None):
                 elif r["ty"] is not None:
                     if label != TG.type_display(r["ty"]):
                         add("C17", "type_label_mismatch", "row labelled '%s' ran with type '%s'" % (label, r["ty"]))
-                if e.case is not None and e.case.leaf.bench.bid != r["bid"]:
+                if e is not None and e.case is not None and e.case.leaf.bench.bid != r["bid"]:
                     add("C17", "row_runs_other_bench", "row '%s' belongs to bench %d but bench %d ran" % ("::".join(path), e.case.leaf.bench.bid, r["bid"]))
     return V, obs, None
 
